@@ -31,6 +31,7 @@ type specEnv struct {
 	cur      *State
 	post     *State // set inside old(...): the state that now(...) returns to
 	loopPre  *State // state at entry of the enclosing loop (pre(...))
+	loopEntryNames map[string]*specBinding // loop-carried locals at loop entry (pre(x))
 	loopBound string
 	allocPre string
 	bound    []map[string]specVal
@@ -757,6 +758,15 @@ func (env *specEnv) call(e *Expr) specVal {
 			}
 			c := env.child()
 			c.cur = env.loopPre
+			if len(env.loopEntryNames) > 0 {
+				c.names = map[string]*specBinding{}
+				for k, b := range env.names {
+					c.names[k] = b
+				}
+				for k, b := range env.loopEntryNames {
+					c.names[k] = b
+				}
+			}
 			return c.tr(args[0])
 		case "freshInLoop":
 			if env.loopBound == "" {
